@@ -59,6 +59,8 @@ Definition step (o : zop) : list Z :=
          let cap := (((nbits + 63) / 64) * 64)%N in
          let '(h0, h1) := bloom_h0h1 seed (item_chunks (skipn 3 a)) in
          map Nz (sort_dedup (positions h0 h1 cap nh 1))
+  | 9 => (* cpc: seed lg_k :: item -> the (row, col) pair of the single update *)
+         [Nz (cpc_row_col (zN (nth 1 a 0)) (zN (nth 0 a 0)) (item_chunks (skipn 2 a)))]
   | _ => PANIC
   end.
 
